@@ -148,6 +148,20 @@ Theorem C04_tlv_loop :
   parse_tlvs fuel esm codec pdu (length pdu) index acc payload = tlvs_meaning esm codec tl acc payload.
 Proof. exact parse_tlvs_meaning. Qed.
 
+(* the User Data Header is a sequence of information elements in ANY order (3GPP TS 23.040 9.2.3.24): the concatenation element -
+   8-bit or 16-bit reference - is read wherever it stands among ANY number of other elements (application port addressing, ...),
+   and a header WITHOUT concatenation element yields the text and no segmentation parameters (the message is not a segment).
+   Fix: the pinned code took whatever element came first for the concatenation element *)
+Theorem C04_udh_any_order :
+  (forall esm codec pre post ref total seq body (wide : bool),
+     0 < (esm / 64) mod 2 -> Forall other_ie pre -> Forall other_ie post -> 0 <= ref <= (if wide then 65535 else 255) ->
+     decode_message esm codec (udh_of (pre ++ [if wide then concat_ie16 ref total seq else concat_ie8 ref total seq] ++ post) ++ body)
+     = (do t <- codec_decode codec body; Ok (t, sar_of ref total seq)))
+  /\ (forall esm codec ies body,
+        0 < (esm / 64) mod 2 -> Forall other_ie ies ->
+        decode_message esm codec (udh_of ies ++ body) = (do t <- codec_decode codec body; Ok (t, []))).
+Proof. split; [exact udh_concatenation_anywhere | exact udh_without_concatenation]. Qed.
+
 (* user data headers with an 8-bit and a 16-bit concatenation reference *)
 Theorem C04_udh_decode :
   forall esm codec ref total seq body,
